@@ -1,6 +1,7 @@
 import Fabio.Driver.Proto
 import Fabio.Model.C12Parse
 import Fabio.Model.C12Serve
+import Fabio.Model.C12Auth
 namespace Fabio.Driver.C12
 open Lean Fabio.Driver Fabio.Model.C12 Fabio.Model.C12.Parse
 
@@ -15,6 +16,15 @@ def ofHex (s : String) : Option Nat :=
   s.toList.foldl (fun acc c => match acc, hexVal c with
     | some a, some d => some (a * 16 + d)
     | _, _ => none) (some 0)
+
+def ofHexBytes (s : String) : Option (List Nat) :=
+  let rec go : List Char → Option (List Nat)
+    | [] => some []
+    | a :: b :: r => match hexVal a, hexVal b, go r with
+      | some x, some y, some t => some ((x * 16 + y) :: t)
+      | _, _, _ => none
+    | _ => none
+  go s.toList
 
 def ipJson (ip : IP) : Json := Json.str (toHex (if ip.v6 then 32 else 8) ip.val)
 
@@ -173,31 +183,123 @@ def secretsOf (j : Json) : List (List Char × List Char) :=
       | _ => none)
   | .error _ => []
 
-def authModel (inp : Json) : Except String Bool := do
+def natD (j : Json) (k : String) : Nat := (j.getObjValAs? Nat k).toOption.getD 999999
+
+def arrD (j : Json) (k : String) : List Json := (((j.getObjVal? k).toOption.bind (fun a => a.getArr?.toOption)).getD #[]).toList
+
+def hexOfChars (cs : List Char) : String := String.join (cs.map (fun c => toHex 2 c.toNat))
+
+/-- `(user, password, ok)` of `Request.BasicAuth` the way the harness ships it (byte strings in hex) -/
+def pairJson : Option (List Char × List Char) → Json
+  | none => Json.mkObj [("ok", false), ("u", ""), ("p", "")]
+  | some (u, p) => Json.mkObj [("ok", true), ("u", hexOfChars u), ("p", hexOfChars p)]
+
+def pairOfImpl (impl : Json) : Json :=
+  let ba := (impl.getObjVal? "ba").toOption.getD Json.null
+  Json.mkObj [("ok", getBoolD ba "ok"), ("u", getStrD ba "u"), ("p", getStrD ba "p")]
+
+def isOWS (c : Char) : Bool := c == ' ' || c == '\t'
+
+/-- a header value as it arrives over the wire: textproto cuts the blanks and tabs around it -/
+def trimOWS (s : List Char) : List Char := ((s.dropWhile isOWS).reverse.dropWhile isOWS).reverse
+
+/-- The request of a case as the gate sees it: the X-Forwarded-For lines, the Authorization line (the canonical
+encoding of the credentials, or the spelling `req.auth`), then the further lines `req.hdrs` - every name under its
+canonical key (`Header.Add` in process, the server's reader on the wire). -/
+def reqOf (inp : Json) (wire : Bool) : Except String Req := do
+  let xff ← strList ((inp.getObjVal? "xff").toOption.getD Json.null)
+  let cred := (inp.getObjVal? "cred").toOption.getD Json.null
+  let rq := (inp.getObjVal? "req").toOption.getD Json.null
+  let authRaw := getStrD rq "auth"
+  let authLine : List Char :=
+    if authRaw != "" then authRaw.toList
+    else match getStrD cred "mode" with
+      | "basic" => basicHeader (getStrD cred "user").toList (getStrD cred "pass").toList
+      | "garbage" => (getStrD cred "user").toList
+      | _ => []
+  let hdrs : List (List Char × List Char) := (arrD rq "hdrs").filterMap fun h =>
+    match h.getArr? with
+    | .ok #[k, v] => match k.getStr?, v.getStr? with
+      | .ok k, .ok v => some (k.toList, v.toList)
+      | _, _ => none
+    | _ => none
+  let lines := xff.map (fun l => (hXFF, l)) ++ (if authLine.isEmpty then [] else [(hAuthorization, authLine)]) ++ hdrs
+  let m := getStrD rq "method"
+  return { method := if m == "" then "GET".toList else m.toList,
+           headers := lines.map fun (k, v) => (canonKey k, if wire then trimOWS v else v) }
+
+def schemesOf (inp : Json) : Except String (List (List Char × List (List Char × List Char))) := do
+  let reg ← strList ((inp.getObjVal? "registered").toOption.getD Json.null)
+  let secrets := secretsOf ((inp.getObjVal? "secrets").toOption.getD Json.null)
+  return reg.map (fun n => (n, secrets))
+
+def authModel (inp : Json) (wire : Bool := false) : Except String Bool := do
+  let r ← reqOf inp wire
+  return authorizedReq (getStrD inp "scheme").toList (← schemesOf inp) r
+
+/-- the specification's view of the credentials: the route names no scheme, or a registered one and the pair
+net/http itself reads out of the request (`impl.ba`) is a stored one -/
+def credGoodLib (inp impl : Json) : Except String Bool := do
   let scheme := getStrD inp "scheme"
   let reg ← strList ((inp.getObjVal? "registered").toOption.getD Json.null)
   let secrets := secretsOf ((inp.getObjVal? "secrets").toOption.getD Json.null)
-  let cred := credOf ((inp.getObjVal? "cred").toOption.getD Json.null)
-  return authorized scheme.toList (reg.map (fun n => (n, ()))) (fun _ => basicVerdict secrets cred)
+  let ba := (impl.getObjVal? "ba").toOption.getD Json.null
+  return scheme == "" || (reg.contains scheme.toList && getBoolD ba "ok" &&
+    secrets.any (fun (u, p) => hexOfChars u == getStrD ba "u" && hexOfChars p == getStrD ba "p"))
 
-/-- c12.auth — `Target.Authorized` with the real `auth.LoadAuthSchemes` (htpasswd basic auth). -/
+/-- class of the request shape -/
+def reqClass (r : Req) (spelled : Bool) : String :=
+  let has (k : String) : Bool := r.headers.any (fun kv => kv.1 == k.toList)
+  (if spelled then "~spelled" else "") ++
+  (if r.method == "OPTIONS".toList then (if has "Origin" && has "Access-Control-Request-Method" then "/preflight" else "/options")
+   else if r.method == "GET".toList then (if r.headers.length > 1 then "/get+" else "")
+   else "/other")
+
+/-- c12.auth — `Target.Authorized` with the real `auth.LoadAuthSchemes` (htpasswd basic auth) on requests of every
+shape; the pair `Request.BasicAuth` reads is compared with the model's `basicAuthOf` as well. -/
 def authH : Handler := fun inp impl => do
   let ok ← authModel inp
-  let m := Json.mkObj [("ok", ok)]
+  let r ← reqOf inp false
+  let m := Json.mkObj [("ok", ok), ("ba", pairJson (basicAuthOf r))]
   let iok := (impl.getObjValAs? Bool "ok").toOption
+  let implCore := Json.mkObj [("ok", match iok with | some b => Json.bool b | none => Json.null), ("ba", pairOfImpl impl)]
   let scheme := getStrD inp "scheme"
   let reg ← strList ((inp.getObjVal? "registered").toOption.getD Json.null)
-  let secrets := secretsOf ((inp.getObjVal? "secrets").toOption.getD Json.null)
-  let cred := credOf ((inp.getObjVal? "cred").toOption.getD Json.null)
-  -- spec, stated directly: accepted ⇒ no scheme, or a registered scheme and a stored user/password pair
+  -- spec, stated directly: accepted ⇒ no scheme, or a registered scheme and a stored user/password pair in the
+  -- request's Authorization line as net/http reads it
+  let good ← credGoodLib inp impl
   let spec := match iok with
-    | some true => scheme == "" || (reg.contains scheme.toList &&
-        (match cred with | some (u, p) => secrets.any (fun (u', p') => u' == u && p' == p) | none => false))
+    | some true => good
     | some false => true
     | none => false
-  let tag := if scheme == "" then "noscheme" else if !reg.contains scheme.toList then "unknown-scheme"
-    else match cred with | none => "known-nocred" | some _ => if ok then "known-good" else "known-bad"
-  return ({ model := m, agree := some ok == iok, spec := spec, nontrivial := scheme != "", tag := tag } : Verdict).toJson
+  let spelled := getStrD ((inp.getObjVal? "req").toOption.getD Json.null) "auth" != ""
+  let tag := (if scheme == "" then "noscheme" else if !reg.contains scheme.toList then "unknown-scheme"
+    else match basicAuthOf r with | none => "known-nocred" | some _ => if ok then "known-good" else "known-bad")
+    ++ reqClass r spelled
+  return ({ model := m, agree := m == implCore, spec := spec, nontrivial := scheme != "", tag := tag } : Verdict).toJson
+
+/-- c12.basicauth — the Authorization line → (user, password): the model's `parseBasicAuth` against net/http's
+`Request.BasicAuth`. -/
+def basicAuthH : Handler := fun inp impl => do
+  let h := (getStrD inp "h").toList
+  let mres := if h.isEmpty then none else parseBasicAuth h
+  let m := pairJson mres
+  let implCore := Json.mkObj [("ok", getBoolD impl "ok"), ("u", getStrD impl "u"), ("p", getStrD impl "p")]
+  -- spec on the library's answer: the canonical line of a pair is read back as that pair; whatever is read has a
+  -- user name without colon
+  let pair := arrD inp "pair"
+  let spec := (match pair with
+      | [u, p] => getBoolD impl "ok" && some (getStrD impl "u") == u.getStr?.toOption && some (getStrD impl "p") == p.getStr?.toOption
+      | _ => true)
+    && (!getBoolD impl "ok" || !(((ofHexBytes (getStrD impl "u")).getD []).contains 0x3a))
+  let tag := match mres with
+    | some _ => if pair.length == 2 then "accept-canonical" else if h.take 6 == "Basic ".toList then "accept-variant" else "accept-variant-case"
+    | none =>
+      if h.length < 6 || lowerL (h.take 6) != "basic ".toList then "reject-scheme-word"
+      else match b64DecodeString (h.drop 6) with
+        | none => "reject-base64"
+        | some _ => "reject-no-colon"
+  return ({ model := m, agree := m == implCore, spec := spec, nontrivial := mres.isSome, tag := tag } : Verdict).toJson
 
 /-- c12.authseq — a history of attempts and htpasswd reloads on one long-lived basic-auth scheme instance. -/
 def authSeqH : Handler := fun inp impl => do
@@ -236,54 +338,59 @@ def authSeqH : Handler := fun inp impl => do
             nontrivial := verdicts.contains true && verdicts.contains false, tag := tag } : Verdict).toJson
 
 /-- c12.gate — the real proxies in front of a counting upstream. The peer address is whatever the kernel
-assigned to the client socket (reported by the harness in `impl.peer`). -/
+assigned to the client socket (reported by the harness in `impl.peer`). Model: `serveReq` (HTTP: the target built by
+`addTarget` from the option texts, the request as method + header lines) resp. `serveTCP`. -/
 def gateH : Handler := fun inp impl => do
   let proto := getStrD inp "proto"
   let allow := getStrD inp "allow"
   let deny := getStrD inp "deny"
   let noroute := getBoolD inp "noroute"
-  let xff ← strList ((inp.getObjVal? "xff").toOption.getD Json.null)
   let peer := getStrD impl "peer"
   let hits := (impl.getObjValAs? Nat "hits").toOption.getD 999
-  let (rules, err) := processAccessRules goParsers allow.toList deny.toList
   let isHTTP := proto == "http"
-  let denied :=
-    if isHTTP then accessDeniedHTTP goParsers rules peer.toList xff
-    else
-      let ip := (splitHostPort peer.toList).bind (fun h => parseIP (stripZone h))
-      accessDeniedTCP rules (.addr ip)
-  let authOk ← if isHTTP then authModel inp else pure true
+  let r ← reqOf inp true
+  let schemes ← schemesOf inp
   -- `redirect=` is honoured when it is a number in 300..399 (`strconv.Atoi` + range check in addTarget: model `redirectCode`)
-  let redirectS := getStrD inp "redirect"
-  let rc := Fabio.Model.C12.redirectCode redirectS.toList
-  let redirectCode : Option Nat := if isHTTP && rc != 0 then some rc else none
-  let steps : List Step := if isHTTP then [.lookup, .access, .auth, .redirect, .upstream] else [.lookup, .access, .upstream]
-  let (reply, contacted) := runGate { found := !noroute, denied := denied, authorized := authOk, redirect := redirectCode.isSome } steps false
-  let outcome : String := match reply with
+  let o : Opts := { allow := allow.toList, deny := deny.toList, auth := if isHTTP then (getStrD inp "scheme").toList else [],
+                    redirect := if isHTTP then (getStrD inp "redirect").toList else [] }
+  let t := addTarget goParsers o 0
+  let err := (processAccessRules goParsers allow.toList deny.toList).2
+  let lk : Nat → Option TargetM := fun _ => if noroute then none else some t
+  let p : Proto := match proto with | "sni" => .sni | "dyn" => .dyn | "http" => .http | _ => .tcp
+  let tcpPeer : TCPPeer := .addr ((splitHostPort peer.toList).bind (fun h => parseIP (stripZone h)))
+  let res := if isHTTP then serveReq goParsers schemes lk (fun _ => true) peer.toList r else serveTCP p lk (fun _ => true) tcpPeer
+  let outcome : String := match res with
     | .noRoute => if isHTTP then "404" else "closed"
     | .forbidden => if isHTTP then "403" else "closed"
     | .unauthorized => "401"
-    | .redirected => toString (redirectCode.getD 0)
-    | .served => if isHTTP then "200" else "echo"
-  let m := Json.mkObj [("outcome", outcome), ("hits", if contacted then (1 : Nat) else (0 : Nat))]
+    | .redirected c => toString c
+    | .served _ => if isHTTP then "200" else "echo"
+    | .dialFailed _ => "502"
+  let m := Json.mkObj [("outcome", outcome), ("hits", if res.attempted.isSome then (1 : Nat) else (0 : Nat)),
+    ("ba", if isHTTP then pairJson (basicAuthOf r) else Json.null)]
   let ioutcome := getStrD impl "outcome"
-  let implCore := Json.mkObj [("outcome", ioutcome), ("hits", hits)]
+  let implCore := Json.mkObj [("outcome", ioutcome), ("hits", hits), ("ba", if isHTTP then pairOfImpl impl else Json.null)]
   -- spec on the implementation's own output: a refusal leaves the upstream untouched, and an upstream is
-  -- touched only for a request the independent evaluation admits (and, HTTP, whose credentials are good)
+  -- touched only for a request the independent evaluation admits (and, HTTP, whose credentials - the pair net/http
+  -- reads out of the first Authorization line - are stored ones of a registered scheme)
   let ref := (impl.getObjVal? "ref").toOption.getD Json.null
+  let authOk ← if isHTTP then credGoodLib inp impl else pure true
   let refused := ioutcome == "403" || ioutcome == "401" || ioutcome == "404" || ioutcome == "closed"
   let admittedOK := if isHTTP then specDecision ref (some false) none else specDecision ref none (some false)
   let is3xx := ioutcome.length == 3 && ioutcome.startsWith "3"
+  let hasRedirect := isHTTP && t.redirect != 0
   -- … and the route's redirect answer (3xx + Location of the protected destination) is given only to a request
   -- that passes both gates, on a route that has a redirect; it never touches the upstream
   let spec := (!refused || hits == 0) && (hits == 0 || (admittedOK && authOk && !noroute))
     && (ioutcome == "200" || ioutcome == "echo" || refused || is3xx)
-    && (!is3xx || (admittedOK && authOk && !noroute && redirectCode.isSome && hits == 0))
+    && (!is3xx || (admittedOK && authOk && !noroute && hasRedirect && hits == 0))
   let kind := getStrD inp "kind"   -- "ws" / "sse": the websocket handler resp. the flushing reverse proxy
-  let tag := proto ++ (if kind != "" then "/" ++ kind else "") ++ "-" ++ (match err with | some _ => "badrule" | none => modeOf allow deny) ++ "-"
-    ++ (if redirectCode.isSome then "redirect-" else "") ++ outcome
+  let spelled := getStrD ((inp.getObjVal? "req").toOption.getD Json.null) "auth" != ""
+  let tag := proto ++ (if kind != "" then "/" ++ kind else "") ++ (if isHTTP then reqClass { r with headers := r.headers.filter (fun kv => kv.1 != hXFF) } spelled else "")
+    ++ "-" ++ (match err with | some _ => "badrule" | none => modeOf allow deny) ++ "-"
+    ++ (if hasRedirect then "redirect-" else "") ++ outcome
   return ({ model := m, agree := m == implCore, spec := spec,
-            nontrivial := !rules.isEmpty || getStrD inp "scheme" != "", tag := tag } : Verdict).toJson
+            nontrivial := !t.rules.isEmpty || getStrD inp "scheme" != "", tag := tag } : Verdict).toJson
 
 /-- c12.grpc — the gRPC proxy path: lookup, access check on the peer of the call, the route's auth scheme on the
 call's `authorization` metadata, handler. The peer is the client's socket address. -/
@@ -322,10 +429,6 @@ def grpcH : Handler := fun inp impl => do
     else match cred with | none => "grpc-nocred" | some _ => if authOk then "grpc-authorized" else "grpc-badcred"
   return ({ model := m, agree := m == implCore, spec := spec,
             nontrivial := !rules.isEmpty || scheme != "", tag := tag } : Verdict).toJson
-
-def natD (j : Json) (k : String) : Nat := (j.getObjValAs? Nat k).toOption.getD 999999
-
-def arrD (j : Json) (k : String) : List Json := (((j.getObjVal? k).toOption.bind (fun a => a.getArr?.toOption)).getD #[]).toList
 
 /-- c12.multi — routes with several targets (own rules, upstream up or down) behind the real proxies on listeners
 made by `proxy.ListenTCP`, plain or with the PROXY protocol (the announced source is the peer). The k-th lookup of a
@@ -426,6 +529,6 @@ def raceH : Handler := fun inp impl => do
   return ({ model := m, agree := m == implCore, spec := spec, nontrivial := !rules.isEmpty, tag := tag } : Verdict).toJson
 
 def streams : List (String × Handler) :=
-  [("c12.parse", parseH), ("c12.decide", decideH), ("c12.tcp", tcpH), ("c12.auth", authH), ("c12.authseq", authSeqH), ("c12.gate", gateH), ("c12.grpc", grpcH),
+  [("c12.parse", parseH), ("c12.decide", decideH), ("c12.tcp", tcpH), ("c12.auth", authH), ("c12.basicauth", basicAuthH), ("c12.authseq", authSeqH), ("c12.gate", gateH), ("c12.grpc", grpcH),
    ("c12.multi", multiH), ("c12.race", raceH)]
 end Fabio.Driver.C12
